@@ -140,6 +140,7 @@ type FA struct {
 	epoch  map[*ssa.UnOp]string
 	conds  map[*ssa.BasicBlock][]Cond
 	reach  map[*ssa.BasicBlock]map[*ssa.BasicBlock]bool
+	atomVal map[string]ssa.Value
 }
 
 var faCache = map[*ssa.Function]*FA{}
@@ -179,6 +180,12 @@ func (a *FA) VN(v ssa.Value) string {
 	a.vnMemo[v] = "rec:" + v.Name() // cycle guard
 	s := a.vn1(v)
 	a.vnMemo[v] = s
+	if a.atomVal == nil {
+		a.atomVal = map[string]ssa.Value{}
+	}
+	if _, ok := a.atomVal[s]; !ok {
+		a.atomVal[s] = v
+	}
 	return s
 }
 
@@ -773,4 +780,88 @@ func resolvePhi(v ssa.Value) []ssa.Value {
 	}
 	rec(v)
 	return out
+}
+
+// AtomValue returns a representative SSA value for an atom of a linear form.
+func (a *FA) AtomValue(atom string) ssa.Value { return a.atomVal[atom] }
+
+// LoopIV describes "idx runs 0,1,2,... while idx < N".
+type LoopIV struct {
+	Phi   *ssa.Phi
+	First int64 // value of idx in the first iteration
+	Step  int64
+	N     Lin   // exclusive upper bound established by the dominating guard (valid if HasN)
+	HasN  bool
+	Facts []string
+}
+
+// InductionOf analyses an index value used in block use: idx = phi + k with
+// phi = [init, phi + step].
+func (a *FA) InductionOf(idx ssa.Value, use *ssa.BasicBlock) (*LoopIV, bool) {
+	L := a.Lin(idx)
+	var phi *ssa.Phi
+	var phiAtom string
+	for atom, coef := range L.T {
+		if p, ok := a.AtomValue(atom).(*ssa.Phi); ok && coef == 1 {
+			if phi != nil {
+				return nil, false
+			}
+			phi, phiAtom = p, atom
+		}
+	}
+	if phi == nil || len(phi.Edges) != 2 {
+		return nil, false
+	}
+	iv := &LoopIV{Phi: phi}
+	pl := linAtom(phiAtom)
+	found := false
+	for i, e := range phi.Edges {
+		el := a.Lin(e)
+		if d := el.Sub(pl); d.IsConst() && d.K != 0 {
+			o := a.Lin(phi.Edges[1-i])
+			if !o.IsConst() {
+				return nil, false
+			}
+			iv.Step = d.K
+			// idx = phi + (L - phi); first = init + (L-phi).K  (L-phi must be constant)
+			rest := L.Sub(pl)
+			if !rest.IsConst() {
+				return nil, false
+			}
+			iv.First = o.K + rest.K
+			found = true
+		}
+	}
+	if !found {
+		return nil, false
+	}
+	iv.Facts = append(iv.Facts, fmt.Sprintf("index %s: first value %d, step %d", L, iv.First, iv.Step))
+	// loop guard: a dominating condition D op 0 where D = idx - N
+	for _, c := range a.Conds(use) {
+		D, op, ok := a.CondRel(c)
+		if !ok {
+			continue
+		}
+		if D.T[phiAtom] == 1 && (op == opLT || op == opLE) {
+			// idx - N' + (D - idx + N') ... D = idx - N  =>  N = idx - D
+			n := L.Sub(D)
+			if op == opLE {
+				n.K++
+			}
+			iv.N, iv.HasN = n, true
+			iv.Facts = append(iv.Facts, fmt.Sprintf("guard at %s: index < %s", a.W.InstrPos(c.If), n))
+			break
+		}
+		if D.T[phiAtom] == -1 && (op == opGT || op == opGE) {
+			// N - idx > 0
+			n := L.Add(D)
+			if op == opGE {
+				n.K++
+			}
+			iv.N, iv.HasN = n, true
+			iv.Facts = append(iv.Facts, fmt.Sprintf("guard at %s: index < %s", a.W.InstrPos(c.If), n))
+			break
+		}
+	}
+	return iv, true
 }
